@@ -93,6 +93,13 @@ pub fn run_matrix(kv: &HashMap<String, String>) -> String {
                 x -= b.clone().unwrap();
                 x
             }
+            "subassignref" => {
+                // the by-reference operator `x -= &b` (SubAssign<&Matrix>), a separate implementation
+                let mut x = a.clone();
+                let bb = b.clone().unwrap();
+                x -= &bb;
+                x
+            }
             "cadd" => a.clone().component_add(unhx(p[1])),
             "csub" => a.clone().component_sub(unhx(p[1])),
             "cmul" => a.clone().component_mul(unhx(p[1])),
